@@ -113,9 +113,12 @@ def generate(ctx):
     quick = ctx.tier == "quick"
     atoms = LIT + ENUM + ALT
     cand = []
-    for p in _with_trailing(_paths(atoms, 2 if quick else 3)):
+    for p in _with_trailing(_paths(atoms, 2)):
         for t in TYPES_MAIN:
             cand.append(p + t)
+    if not quick:   # depth 3: every path, alternately without and with type alternatives
+        for i, p in enumerate(_with_trailing([q for q in _paths(atoms, 3) if q not in set(_paths(atoms, 2))])):
+            cand.append(p + TYPES_MAIN[i % 2])
     if quick:       # a slice of depth 3: enumeration / alternatives between literals, '/' followed by more pattern
         for p in QUICK_DEPTH3:
             for t in TYPES_MAIN:
@@ -305,8 +308,7 @@ def index_obligations(ctx):
     else:
         ns = ["0", "1", "2", "9", "10", "16", "99", "100", "007", "128", "1000", "65536", "1000000", "99999999", "100000000",
               "999999999", "123456789", "000000001"]
-        shapes = [("x", "", 0), ("x", "", 1), ("x", "/", 1), ("x", "/", 2), ("", "y", 1), ("x", "y", 2), ("x", ":i", 0),
-                  ("", "/:i:", 2), ("x", "{a,b}", 1)]
+        shapes = [("x", "", 0), ("x", "", 1), ("x", "/", 2), ("", "y", 1), ("x", ":i", 0), ("", "/:i:", 2), ("x", "{a,b}", 1)]
     obls = []
     for n in ns:
         mds = sorted(set(m for m in (len(n) - 1, len(n), len(n) + 1, 9) if 1 <= m <= 9)) if ctx.tier == "quick" else range(1, 10)
